@@ -40,8 +40,10 @@ RULE = (
     "non-trivial = >= 2 compared calls with different signatures; distinct = (atoms, knobs, cache-outcome sequence)"
 )
 
-UNARY_CONSTRAINTS = [None, "to_output_scale", "to_grad_input_scale", "gmean", "hmean", "amean"]
-TERNARY_CONSTRAINTS = [None, "to_output_scale", "to_left_grad_scale", "to_right_grad_scale", "gmean", "hmean", "amean"]
+# None (distinct forward and backward factors) is the case the property singles out: weighted up
+UNARY_CONSTRAINTS = [None, None, None, "to_output_scale", "to_grad_input_scale", "gmean", "hmean", "amean"]
+TERNARY_CONSTRAINTS = [None, None, None, "to_output_scale", "to_left_grad_scale", "to_right_grad_scale", "gmean", "hmean",
+                       "amean"]
 ATOMS = ["gelu", "silu", "softmax", "dropout", "layer_norm", "rms_norm", "linear", "linear_readout", "matmul",
          "add", "add_scalar", "add_bcast", "residual", "silu_glu", "sdpa", "conv1d", "scale", "graph_break"]
 MODULES = ["Linear", "MLP", "MHSA", "TransformerLayer", "LayerNorm", "RMSNorm", "GELU", "SiLU", "Softmax",
@@ -150,6 +152,13 @@ def generate(seed: int, tier: str, phase: str) -> Dict[str, Any]:
         dtypes = [plan["module"]["dtype"]]
     ops: List[Dict[str, Any]] = []
     base = _gen_call(r, dtypes)
+    if r.random() < 0.3:
+        # an inference / validation pass first, then training with the same signature
+        first = copy.deepcopy(base)
+        first["mode"] = "nograd"
+        first["tseed"] = r.randrange(1 << 30)
+        ops.append(first)
+        base["mode"] = "bwd"
     ops.append(base)
     for _ in range(r.choice([2, 3, 4, 5, 7])):
         x = r.random()
